@@ -77,8 +77,11 @@ func (s *Store[H]) deleteSingle(
 		return nil, fmt.Errorf("hash by height %d: %w", height, err)
 	}
 
+	// the handlers are promised that GetByHeight still finds the header: let them read the datastore
+	// as it is now, not the read transaction of this deletion, which may predate the header's flush
+	handlerCtx := contextds.WithRead(ctx, nil)
 	for _, deleteFn := range onDelete {
-		if err := deleteFn(ctx, height); err != nil {
+		if err := deleteFn(handlerCtx, height); err != nil {
 			return nil, fmt.Errorf("on delete handler for %d: %w", height, err)
 		}
 	}
